@@ -5,7 +5,7 @@
 //   TT threads, each RR rounds of: lock; critical section with a scheduling point between read and write of a plain counter; unlock.
 //   Mutual exclusion: never two threads inside; no lost update; progress: every thread gets the lock (no deadlock, no livelock
 //   at a terminal state); the lock is free at the end.
-// LOCKKIND: 0 eventpp::SpinLock  1 std::mutex  2 SpinLock through GeneralThreading<SpinLock>::Mutex inside a real CallbackList (append / remove / invoke)
+// LOCKKIND: 0 eventpp::SpinLock  1 std::mutex  3 EventQueue under GeneralThreading<SpinLock>  2 SpinLock through GeneralThreading<SpinLock>::Mutex inside a real CallbackList (append / remove / invoke)
 #include "common.h"
 
 #ifndef TT
@@ -68,6 +68,35 @@ extern "C" void harness()
 	{ std::lock_guard<Lock> guard(g->lk); vf_assert(g->inside == 0, 706); }
 #endif
 	vf_obs(1, (uint64_t)g->counter);
+	delete g; g = nullptr;
+	vf_end();
+}
+
+#elif LOCKKIND == 3
+// ---------------------------------------------------------------------------------------------------------------------
+// LOCKKIND 3: a real EventQueue under GeneralThreading<SpinLock> (C06): TT-1 producers x RR enqueues, one consumer (process, processOne);
+// after the join the queue is drained: dispatched events = enqueued events, each once, per producer in order.
+struct QPol { using Threading = eventpp::GeneralThreading<eventpp::SpinLock>; };
+using Q = eventpp::EventQueue<int, void(uint32_t), QPol>;
+struct G { Q q; uint32_t seen[16]; int nseen; };
+static G * g;
+static void producer(void * arg) { int me = (int)(intptr_t)arg; for(int r = 0; r < RR; r++) g->q.enqueue(1, (uint32_t)(10 * (me + 1) + r)); }
+static void consumer(void *) { g->q.process(); g->q.processOne(); }
+extern "C" void harness()
+{
+	g = new G(); g->nseen = 0;
+	g->q.appendListener(1, [](uint32_t v) { if(g->nseen < 16) g->seen[g->nseen] = v; g->nseen++; });
+	g->q.enqueue(1, 1u); g->q.process(); g->nseen = 0;          // a recycled slot exists before the threads start
+	for(int i = 0; i < TT - 1; i++) vf_spawn(producer, (void *)(intptr_t)i);
+	vf_spawn(consumer, nullptr);
+	int dl = vf_join_all();
+	vf_assert(dl == 0, 720);
+	g->q.process();
+	vf_assert(g->q.emptyQueue(), 721);
+	vf_assert(g->nseen == (TT - 1) * RR, 722);
+	for(int i = 0; i < g->nseen && i < 16; i++) for(int j = i + 1; j < g->nseen && j < 16; j++) vf_assert(g->seen[i] != g->seen[j], 723);
+	for(int t = 0; t < TT - 1; t++) { uint32_t last = 0; for(int i = 0; i < g->nseen && i < 16; i++) if(g->seen[i] / 10 == (uint32_t)(t + 1)) { vf_assert(g->seen[i] > last, 724); last = g->seen[i]; } }
+	vf_cover(COV_CONTENDED); vf_cover(COV_HANDOVER);
 	delete g; g = nullptr;
 	vf_end();
 }
